@@ -558,7 +558,7 @@ def _build_vector_font_dictionary(font_dictionary, pdf, font, widths, compress,
         'StemH': font.stemh,
         font_file: reference,
     })
-    if str(pdf_version) <= '1.4':  # Cast for bytes and None
+    if str(pdf_version) <= '1.4' and font.widths:  # Cast for bytes and None
         cids = sorted(font.widths)
         padded_width = ceil((cids[-1] + 1) / 8)
         bits = ['0'] * padded_width * 8
